@@ -13,9 +13,10 @@ VERIF = os.path.dirname(HERE)
 REPO = os.environ.get('VERIF_REPO', '/repo')
 
 
-# benign refactorings the rules refuse (exit 2, "representation not covered"; DESIGN.md 13.2): not part
-# of the corpus of variants that must stay silent
-REFUSED_BENIGN = {'G2', 'G4'}
+# refactorings that are behaviour-preserving for every property but the listed ones (DESIGN.md 13.2):
+# G2 zips the two position tables with a bare `zip(...)` in the runtime, which a rule named `zip`
+# would capture - C20 must report it, the other eighteen checks must stay silent
+BENIGN_EXCEPT = {'G2': {'C20'}}
 
 
 def load_mutants():
@@ -35,9 +36,14 @@ def load_mutants():
     bd = os.path.join(sd, 'benign')
     all_props = [c['property_id'] for c in json.load(open(os.path.join(VERIF, 'MANIFEST.json')))['checks']]
     for name in sorted(os.listdir(bd)):
-        if name.endswith('.diff') and name[:-5] not in REFUSED_BENIGN:
-            muts.append({'id': 'refactor-' + name[:-5], 'kind': 'benign', 'props': all_props,
+        if name.endswith('.diff'):
+            hit = BENIGN_EXCEPT.get(name[:-5], set())
+            muts.append({'id': 'refactor-' + name[:-5], 'kind': 'benign',
+                         'props': [p for p in all_props if p not in hit],
                          'edits': [], 'patch': os.path.join(bd, name)})
+            if hit:
+                muts.append({'id': 'refactor-' + name[:-5] + '-hazard', 'kind': 'break', 'props': sorted(hit),
+                             'edits': [], 'patch': os.path.join(bd, name)})
     return muts
 
 
